@@ -589,6 +589,11 @@ class Check(PropCheck):
                 nparse += 1
                 if nparse > 1:
                     fs.add('parse-again')
+
+                def rep(n):
+                    return len(set(n[2])) < len(n[2]) or any(rep(c) for c in n[4])
+                if any(rep(r) for r in (st[1] if k == 'parsemulti' else [st[1]])):
+                    fs.add('doc-repeated-class-name')
             elif k == 'addindex':
                 if st[1].lower() not in attrs:
                     attrs.append(st[1].lower())
